@@ -1,0 +1,31 @@
+//go:build verif && linux
+
+// Accessor for the socket-buffer plumbing check. Add-only; nothing here changes behaviour.
+
+package conn
+
+import (
+	"syscall"
+
+	"github.com/scionproto/scion/private/underlay/sockctrl"
+)
+
+// VerifSockBufs returns the SO_RCVBUF and SO_SNDBUF values the kernel reports for a connection
+// returned by New. ok is false if c is not one of this package's UDP connections.
+func VerifSockBufs(c any) (rcv, snd int, ok bool, err error) {
+	var base *connUDPBase
+	switch v := c.(type) {
+	case *connUDPIPv4:
+		base = &v.connUDPBase
+	case *connUDPIPv6:
+		base = &v.connUDPBase
+	default:
+		return 0, 0, false, nil
+	}
+	rcv, err = sockctrl.GetsockoptInt(base.conn, syscall.SOL_SOCKET, syscall.SO_RCVBUF)
+	if err != nil {
+		return 0, 0, true, err
+	}
+	snd, err = sockctrl.GetsockoptInt(base.conn, syscall.SOL_SOCKET, syscall.SO_SNDBUF)
+	return rcv, snd, true, err
+}
